@@ -5,7 +5,7 @@ import runlib as R
 ID = 'C05'
 COQ_TARGETS = ['Props/Properties_C05.vo']
 PROPS_FILES = ['Props/Properties_C05.v']
-THEOREMS = ['C05_line_shape', 'C05_no_smuggling_refuted', 'C05_schedule_independent_refuted']
+THEOREMS = ['C05_line_shape', 'C05_schedule_independent_clean', 'C05_no_smuggling_refuted', 'C05_schedule_independent_refuted']
 ENGINES = [dict(name='netio', c_sources=['netio_h.c'], extract='Extract/Extract_netio.v', driver='netio_driver.ml',
                 accepts=lambda c: c.startswith('bb '))]
 RULE = ('case = (byte stream, two read() schedules); the real net_read() is iterated to connection end under each schedule and the item '
@@ -29,10 +29,10 @@ ASSUMPTIONS = [
     'DATA-mode consequences (queueing) are decided by the session engine, not here',
 ]
 LEVEL_TEXT = ('Coq theorem for all streams and all read schedules: every line handed out by the reader is a piece of the stream directly followed by CRLF, '
-              'free of CR/LF, at most 999 octets (C05_line_shape). The stronger wording of the property (no resynchronisation inside a malformed line; '
+              'free of CR/LF, at most 999 octets (C05_line_shape); for every stream in which CR/LF occur only as CRLF the item sequence equals a schedule-free specification for ALL segmentations (C05_schedule_independent_clean). The stronger wording of the property (no resynchronisation inside a malformed line; '
               'schedule independence for all streams) is refuted for the faithful model by machine-checked witnesses that reproduce on the C '
               '(known findings F-C05-2, F-C05-3); every C run is additionally judged by the extracted boolean specification.')
-LEVEL_NOTE = ('Partial: schedule independence is proved nowhere yet beyond the refutation; the correspondence run compares two schedules per stream. '
+LEVEL_NOTE = ('Schedule independence is proved for clean streams (CR and LF only as CRLF) of any line lengths; for streams with stray CR/LF it is refuted with class (known findings) and two schedules per stream are compared in the correspondence run. '
               'Trusted: kernel, translator, extraction, harness stub for read(), generator quality.')
 TECHNIQUE = 'Coq proof (suffix invariant over net_read steps, all schedules); refutation witnesses by vm_compute; model-vs-C differential run with two schedules per stream'
 DESIGN_REF = 'DESIGN.md section 5, C05'
@@ -41,6 +41,15 @@ DESIGN_REF = 'DESIGN.md section 5, C05'
 def _stream(rng):
     mode = rng.random()
     out = bytearray()
+    if mode < 0.25:
+        # clean stream: CR and LF only as CRLF; line lengths around the limit
+        for _ in range(rng.randrange(1, 7)):
+            n = rng.choice([0, 1, 2, 3, 50, 997, 998, 999, 1000, 1001, 1002, 1003, 2003, 2500])
+            out += bytes(rng.choice(b'ab.') for _ in range(n)) + b'\r\n'
+        if rng.random() < 0.3:
+            out += bytes(rng.choice(b'ab.') for _ in range(rng.choice([1, 5, 1001, 1500])))
+        return bytes(out)
+    mode = (mode - 0.25) / 0.75
     if mode < 0.45:
         for _ in range(rng.randrange(1, 30)):
             out.append(rng.choice(b'a.\r\n\r\n'))
@@ -116,7 +125,7 @@ def classify(case, c_out, spec_out):
     if not spec_out.startswith('bad:'):
         return None
     reasons = set(spec_out[4:].split(','))
-    if 'shape' in reasons:
+    if 'shape' in reasons or 'clean' in reasons:
         return None
     stream = R.unhx(case.split()[1])
     if 'resync' in reasons:
